@@ -367,6 +367,12 @@ func buildScenarios(thorough bool) []*scenario {
 				if variant == "natural" && kindSpecs[kk.kind].Class == "typedarray" && keys[g[0]].Str == "length" {
 					continue
 				}
+				if variant == "natural" && !thorough {
+					switch kk.kind {
+					case "arrow", "bound", "method", "sfunc", "plainlit", "u8e", "u8c", "args1":
+						continue // quick tier: the built-in prototype variant only for the main kinds
+					}
+				}
 				c := cfg
 				if !thorough && kk.kind != "plain" {
 					// quick tier: the second pair of functions (g / sg) only for plain objects; with the built-in
@@ -418,7 +424,7 @@ func hostScenarios(thorough bool) []*scenario {
 			sd = sd[:len(sd)-1] // without the invalid mix: ToPropertyDescriptor rejects it before the object is involved
 			cfg := alphaCfg{data: sd, defRoutes: allDefRoutes, values: []int{v1, v2}, recv: true, static: true, integrity: true, reads: true}
 			if thorough {
-				cfg.data, cfg.acc, cfg.invalid = dataLattice([]int{v1, v2}), accLattice(allFn, allFn), invalidDescs()
+				cfg.data, cfg.acc = dataLattice([]int{v1, v2}), accLattice(allFn, allFn)
 			}
 			ops := buildOps([]keyGroup{g}, cfg)
 			sc := &scenario{Name: "host/" + name + "/" + groupName(g), Kind: name, Variant: "natural", ChainKeys: g, Ops: ops, MaxDepth: depth, NoModel: true, LeafAux: true, Ref: map[int]int{}}
@@ -487,9 +493,9 @@ func chainScenarios(thorough bool) []*scenario {
 		{"args", []keyGroup{kg("0", `"0"`), kg("2", `"2"`), kg(`"a"`)}},
 		{"u8", []keyGroup{kg("2", `"2"`), kg(`"a"`), kg(`"-0"`)}},
 	}
-	decos := []string{"parent:acc", "parent:getonly", "parent:ro", "parent:rw", "grand:acc", "grand:ro"}
+	decos := []string{"parent:acc", "parent:ro", "grand:acc", "grand:ro"}
 	if thorough {
-		decos = append(decos, "grand:getonly", "grand:rw", "parent:ro+grand:acc", "parent:acc+grand:ro")
+		decos = append(decos, "parent:getonly", "parent:rw", "grand:getonly", "grand:rw", "parent:ro+grand:acc", "parent:acc+grand:ro")
 		list = append(list, kk{"sparse2", []keyGroup{kg("0", `"0"`), kg("5000", `"5000"`)}}, kk{"klass", []keyGroup{kg(`"a"`)}}, kk{"f64", []keyGroup{kg("2", `"2"`)}})
 	}
 	for _, k := range list {
